@@ -89,8 +89,19 @@ def mk {F} (ops : FOps F) (t : Ty) (r : Raw F) : Res (Cell F) :=
   | .d, .int n => .ok (.flt .d (ops.ofInt n))
   | .d, .flt x => .ok (.flt .d x)
 
-/-! ### Python integer operators -/
+/-! ### integer division -/
 
+/-- `\` as repaired: `abs(a) // abs(b)`, negated when the signs differ: the quotient truncated toward zero -/
+def qbIDiv (a b : Int) : Int :=
+  let q : Int := ((a.natAbs / b.natAbs : Nat) : Int)
+  if decide (a < 0) != decide (b < 0) then -q else q
+
+/-- MOD as repaired: `abs(a) % abs(b)` with the sign of the dividend -/
+def qbMod (a b : Int) : Int :=
+  let r : Int := ((a.natAbs % b.natAbs : Nat) : Int)
+  if a < 0 then -r else r
+
+/-- before the repair: Python's floored `//` and `%` -/
 def pyFloorDiv (a b : Int) : Int := Int.fdiv a b
 def pyMod (a b : Int) : Int := Int.fmod a b
 
@@ -151,8 +162,8 @@ def strCmp : Str → Str → Int
 def binop {F} (ops : FOps F) (op : BinOp) (a b : Cell F) : Res (Cell F) :=
   match op with
   | .cmp =>
-    -- `self.trap(TrapCode.TYPE_MISMATCH, a.type, got=b.type)` has one positional argument too many
-    if decide (a.ty ≠ b.ty) then .host "TypeError" else
+    -- (as repaired: the trap was built with a positional argument too many: TypeError)
+    if decide (a.ty ≠ b.ty) then .trap "TYPE_MISMATCH" else
     match a, b with
     | .int _ x, .int _ y => .ok (.int .i (if x = y then 0 else if x < y then -1 else 1))
     | .flt _ x, .flt _ y => .ok (.int .i (if ops.eq x y then 0 else if ops.lt x y then -1 else 1))
@@ -184,7 +195,7 @@ def binop {F} (ops : FOps F) (op : BinOp) (a b : Cell F) : Res (Cell F) :=
     match a, b with
     | .int t x, .int _ y =>
       if y = 0 then .trap "DIVISION_BY_ZERO"
-      else mk ops t (.int (if op = .idiv then pyFloorDiv x y else pyMod x y))
+      else mk ops t (.int (if op = .idiv then qbIDiv x y else qbMod x y))
     | _, _ => .trap "TYPE_MISMATCH"
   | .and | .or | .xor | .eqv | .imp =>
     if !isIntTy a.ty || !isIntTy b.ty || decide (a.ty ≠ b.ty) then .trap "TYPE_MISMATCH" else
@@ -232,12 +243,7 @@ def unop {F} (ops : FOps F) (op : UnOp) (a : Cell F) : Res (Cell F) :=
   | .clng, .flt _ x => (match ops.roundEven x with | some n => mk ops .l (.int n) | none => .trap "INVALID_CELL_VALUE")
   | .int, .int _ x => mk ops .l (.int x)
   | .int, .flt _ x => (match ops.floor x with | some n => mk ops .l (.int n) | none => .trap "INVALID_CELL_VALUE")
-  -- lt/gt/le/ge report the mismatch with `got=a.type`, an undefined name; sign likewise
-  | .lt, .str _ => .host "NameError"
-  | .gt, .str _ => .host "NameError"
-  | .le, .str _ => .host "NameError"
-  | .ge, .str _ => .host "NameError"
-  | .sign, .str _ => .host "NameError"
+  -- (as repaired: lt/gt/le/ge and sign named an undefined variable while building this trap: NameError)
   | _, .str _ => .trap "TYPE_MISMATCH"
 
 /-- conv<src><dst>: pops a cell of type src (TYPE_MISMATCH otherwise), pushes dst -/
